@@ -447,18 +447,19 @@ class Program:
 
 
 def walk_scope(node):
-    """Yield nodes of *node*'s own scope (do not enter nested defs/lambdas/
-    classes), honouring build arms."""
+    """Yield the nodes evaluated in the scope that contains *node* (a statement
+    or expression of that scope): nested function/lambda bodies are not
+    entered (only their decorators and defaults), class bodies are (their
+    statements run in the enclosing scope), dead build arms are skipped."""
     stack = [node]
-    first = True
     while stack:
         n = stack.pop()
-        if not first and isinstance(n, (ast.FunctionDef, ast.AsyncFunctionDef, ast.Lambda, ast.ClassDef)):
-            yield n
-            continue
-        first = False
         yield n
-        if isinstance(n, ast.If):
+        if isinstance(n, (ast.FunctionDef, ast.AsyncFunctionDef)):
+            kids = list(n.decorator_list) + list(n.args.defaults) + [k for k in n.args.kw_defaults if k]
+        elif isinstance(n, ast.Lambda):
+            kids = list(n.args.defaults) + [k for k in n.args.kw_defaults if k]
+        elif isinstance(n, ast.If):
             t = static_truth(n.test)
             kids = [n.test]
             if t is not False:
